@@ -129,6 +129,8 @@ class Report:
             json.dump(ev, f, indent=1, default=str)
         print(f'[{self.pid}] tier={self.tier} conditions={total} decided={decided} {c} '
               f'known={len(self.known)} violations={len(self.violations)} wall={wall:.0f}s')
+        slow = sorted(self.conditions, key=lambda x: -x['secs'])[:4]
+        print('  slowest: ' + ', '.join(f"{x['name']}={x['secs']:.0f}s/{x['paths']}p" for x in slow))
         for x in incon[:15]:
             print(f'  inconclusive: {x["name"]} ({x["verdict"]}) {x["detail"][:160]}')
         sys.stdout.flush()
